@@ -130,6 +130,7 @@ NOINL static Wire* mkwire(Raw<Wire>& r, const uint8_t* w, unsigned wl, unsigned 
     x->in_len = wl; x->in_pos = pb; x->out_len = 0; x->out = (&r == &wireA) ? OUTA : OUTB; x->calls = 0; x->closed = false; x->lb = lb; x->nf = 0;
     for (unsigned i = 0; i < WMAX; i++) {
         if (oneshot) { x->frag[i] = WMAX; continue; }
+        if (KFRAG == 1) { x->frag[i] = 1; continue; }
         uint8_t f = nondet_u8(); ASSUME(f >= 1 && f <= KFRAG); x->frag[i] = f;
     }
     for (unsigned i = 0; i < WMAX; i++) { if (i >= pb) break; lb[i] = (char)w[i]; }
@@ -241,7 +242,11 @@ void harness_chunked_exact()
     if (L == 0) WITNESS("chunked: empty body");
 #ifndef ALLPARTIAL
     if (pb == 0 && L > 0) WITNESS("chunked: everything from the stream");
+#ifdef ONESHOT
+    if (pb > 0 && pb < wl && x->calls > 1) WITNESS("chunked: split message, several stream calls");
+#else
     if (pb > 0 && pb < wl && x->calls > 3) WITNESS("chunked: split message, several stream calls");
+#endif
 #endif
     if (pb == wl && L > 0) WITNESS("chunked: everything in the partial body");
 #if NCALL > 0
@@ -292,32 +297,54 @@ void harness_chunked_any()
 #endif
         W[i] = c;
     }
-    uint8_t pa = nondet_u8(); ASSUME(pa <= wl);
+    // run A is the canonical delivery (the whole string arrived with the header, the stream is at its end); run B has a
+    // symbolic split and fragmentation: every delivery agreeing with the canonical one means any two agree
+    unsigned pa = wl;
     uint8_t pb = nondet_u8(); ASSUME(pb <= wl);
-    Wire* xa = mkwire(wireA, W, wl, pa, LBA, false);
     Wire* xb = mkwire(wireB, W, wl, pb, LBB, false);
-    CR* ra = new (&crA.v) CR(xa, std::string_view(LBA, pa));
     CR* rb = new (&crB.v) CR(xb, std::string_view(LBB, pb));
-    RunOut oa(GOTA), ob(GOTB);
-    drive_chunked(ra, oa, true);
+    RunOut ob(GOTB);
+#ifdef ANY_TERMINAL
     drive_chunked2(rb, ob, true);
-    bool ca = ra->ChunkedBodyReadStream::close() == 0, cb = rb->ChunkedBodyReadStream::close() == 0;
+#else
+    drive_chunked2(rb, ob, false);
+#endif
+    bool cb = rb->ChunkedBodyReadStream::close() == 0;
+    CHECK(xb->calls <= wl + 2 * ob.calls + 2, "any input: stream calls bounded by bytes served plus reader calls");
+    CHECK(ob.n <= wl, "any input: never more bytes delivered than received");
+    bool inside = true;
+    for (unsigned i = 0; i < GMAX; i++) { if (i >= ob.n) break; bool f = false; for (unsigned j = 0; j < WMAX; j++) if (j < wl && W[j] == ob.got[i]) f = true; if (!f) inside = false; }
+    CHECK(inside, "any input: every byte delivered is a byte of the message");
+    if (cb && WMAX < 9) WITNESS("any: complete body");
+    if (cb && ob.n > 0 && WMAX >= 9) WITNESS("any: complete body with payload");
+    if (!cb && ob.n > 0) WITNESS("any: incomplete body, some bytes delivered");
+    if (!cb && ob.term == -1) WITNESS("any: error");
+#ifdef ANY_TERMINAL
+    if (!cb && ob.term == 0) WITNESS("any: end of stream inside a chunk");
+#endif
+#ifdef TWO_RUNS
+    Wire* xa = mkwire(wireA, W, wl, pa, LBA, false);
+    CR* ra = new (&crA.v) CR(xa, std::string_view(LBA, pa));
+    RunOut oa(GOTA);
+#ifdef ANY_TERMINAL
+    drive_chunked(ra, oa, true);
+#else
+    drive_chunked(ra, oa, false);
+#endif
+    bool ca = ra->ChunkedBodyReadStream::close() == 0;
     CHECK(ca == cb, "any input: whether the body is complete does not depend on the fragmentation");
 #if NCALL == 0
-    // one read asking for everything, then the terminal read: same bytes, same codes
+    // one read asking for everything (then the terminal read): same bytes, same codes
     CHECK(oa.n == ob.n && eqn(oa.got, ob.got, oa.n), "any input: bytes read do not depend on the fragmentation");
-    CHECK(oa.term == ob.term, "any input: terminal code does not depend on the fragmentation");
+    CHECK(oa.term == ob.term, "any input: return code class does not depend on the fragmentation");
 #else
     // an error return discards what that call had already copied, so with different caller sizes only complete bodies
     // are compared byte for byte; otherwise one result is a prefix of the other
     if (ca) CHECK(oa.n == ob.n, "any input: complete bodies have the same length");
     CHECK(eqn(oa.got, ob.got, oa.n < ob.n ? oa.n : ob.n), "any input: bytes read agree on the common prefix");
 #endif
-    CHECK(xa->calls <= wl + 2 * oa.calls + 2, "any input: stream calls bounded by bytes served plus reader calls");
-    if (ca && oa.n > 0) WITNESS("any: complete body with payload");
-    if (!ca && oa.term == -1) WITNESS("any: error");
-    if (!ca && oa.term == 0) WITNESS("any: end of stream inside a chunk");
-    if (ca && pa == 0 && pb == wl) WITNESS("any: all-stream vs all-partial");
+    if (ca && pb == 0 && wl >= 4) WITNESS("any: all-stream vs all-partial");
+#endif
 }
 
 // (B) exactness, Content-Length and close-delimited framing (BodyReadStream).  W: symbolic bytes; N: declared body length
@@ -375,41 +402,6 @@ void harness_length_exact()
     if (N > wl) WITNESS("length: truncated body ends with 0");
 #endif
 #endif
-}
-
-// readv path (BodyReadStream::readv, inherited by the chunk reader): two iovecs of symbolic lengths
-void harness_readv()
-{
-    uint8_t P[PMAX + 1], W[WMAX + 1]; unsigned nc;
-    uint8_t L = nondet_u8(); ASSUME(L <= PMAX);
-    for (unsigned i = 0; i < PMAX; i++) P[i] = nondet_u8();
-    static uint8_t b0[CMAX], b1[CMAX];
-    uint8_t l0 = nondet_u8(), l1 = nondet_u8(); ASSUME(l0 <= CMAX && l1 <= CMAX);
-    struct iovec iov[2] = {{b0, l0}, {b1, l1}};
-#ifdef RV_CHUNKED
-    unsigned wl = encode(W, P, L, &nc, nullptr);
-    uint8_t pb = nondet_u8(); ASSUME(pb <= wl);
-    Wire* x = mkwire(wireA, W, wl, pb, LBA, false);
-    CR* rs = new (&crA.v) CR(x, std::string_view(LBA, pb));
-    ssize_t r = rs->BodyReadStream::readv(iov, 2);
-#else
-    for (unsigned i = 0; i < PMAX; i++) W[i] = P[i];
-    unsigned wl = L;
-    uint8_t pb = nondet_u8(); ASSUME(pb <= wl);
-    Wire* x = mkwire(wireA, W, wl, pb, LBA, false);
-    BodyReadStream* rs = new (&brA.v) BodyReadStream(x, std::string_view(LBA, pb), L);
-    ssize_t r = rs->BodyReadStream::readv(iov, 2);
-#endif
-    unsigned cap = l0 + l1, want = cap < L ? cap : L;
-    CHECK(r == (ssize_t)want, "readv: returns min(total iovec length, body length)");
-    bool ok = true;
-    for (unsigned i = 0; i < CMAX; i++) { if (i < l0 && i < want && b0[i] != P[i]) ok = false; }
-    for (unsigned i = 0; i < CMAX; i++) { if (l0 + i < want && i < l1 && b1[i] != P[l0 + i]) ok = false; }
-    CHECK(ok, "readv: iovecs hold the body bytes in order");
-    CHECK(iov[0].iov_len == l0 && iov[1].iov_len == l1 && iov[0].iov_base == b0, "readv: caller's iovec array is not modified");
-    if (want > l0 && l0 > 0) WITNESS("readv: body spans both iovecs");
-    if (want == L && L == PMAX) WITNESS("readv: whole body");
-    if (l0 == 0 && want > 0) WITNESS("readv: empty first iovec");
 }
 
 // (C) writer: ChunkedBodyWriteStream emits exactly the chunked coding of what was written (write or writev, close())
